@@ -24,6 +24,7 @@ type C04Pub struct {
 	ID   int  `json:"id"`
 	Dead bool `json:"dead,omitempty"` // context cancelled before PublishContext is called
 	Bg   bool `json:"bg,omitempty"`   // use Publish (background context) instead of PublishContext
+	Mid  bool `json:"mid,omitempty"`  // (only with a canceller) the canceller cancels this publish's context before any other handler's turn
 }
 
 type C04Scenario struct {
@@ -31,6 +32,10 @@ type C04Scenario struct {
 	Regs   []C04Reg   `json:"regs"`
 	Pubs   [][]C04Pub `json:"pubs"` // one list per publisher task
 	Yields int        `json:"yields"`
+	// Canceller: a synchronous ordinary handler subscribed FIRST on every type; for publishes marked Mid
+	// it cancels the publish context, so every handler after it is skipped "because the context is
+	// already cancelled" - which must not use up a Once handler.
+	Canceller bool `json:"canceller,omitempty"`
 }
 
 func genC04(rt *rapid.T) core.Scenario {
@@ -74,6 +79,16 @@ func genC04(rt *rapid.T) core.Scenario {
 		sc.Pubs = append(sc.Pubs, l)
 	}
 	sc.Yields = rapid.IntRange(0, 2).Draw(rt, "yields")
+	if rapid.IntRange(0, 3).Draw(rt, "canceller") == 3 {
+		sc.Canceller = true
+		for i := range sc.Pubs {
+			for j := range sc.Pubs[i] {
+				if !sc.Pubs[i][j].Dead && rapid.IntRange(0, 1).Draw(rt, "mid") == 1 {
+					sc.Pubs[i][j].Mid, sc.Pubs[i][j].Bg = true, false
+				}
+			}
+		}
+	}
 	sc.Tape = core.DrawTape(rt, 300)
 	return sc
 }
@@ -89,7 +104,14 @@ func (sc *C04Scenario) Execute(t *testing.T) *core.Outcome {
 	inv := map[int][]int{} // regKey -> event ids it was invoked with
 	body := func() {
 		w = NewWorld()
+		cancelFn := map[int]context.CancelFunc{}
 		w.OnInvoke = func(ti, fn, uid int, ctx context.Context, id int) {
+			if uid == 9000 { // the canceller
+				if c := cancelFn[id]; c != nil {
+					c()
+				}
+				return
+			}
 			k := uid
 			w.Rec.Add("enter", k, id, "")
 			inv[k] = append(inv[k], id)
@@ -97,6 +119,18 @@ func (sc *C04Scenario) Execute(t *testing.T) *core.Outcome {
 				simrt.Yield(siteHandler)
 			}
 			w.Rec.Add("exit", k, id, "")
+		}
+		if sc.Canceller {
+			seenT := map[int]bool{}
+			for _, r := range sc.Regs {
+				if !seenT[r.Type] {
+					seenT[r.Type] = true
+					if err := w.SubscribeUID(r.Type, numSites-1, 9000, SubOpts{}); err != nil {
+						out.HarnessErr = err.Error()
+						return
+					}
+				}
+			}
 		}
 		for i, r := range sc.Regs {
 			if err := w.SubscribeUID(r.Type, r.Fn, i, r.Opts); err != nil {
@@ -112,6 +146,10 @@ func (sc *C04Scenario) Execute(t *testing.T) *core.Outcome {
 				for _, p := range l {
 					w.Rec.Add("pub-call", p.Type, p.ID, "")
 					switch {
+					case p.Mid:
+						ctx, cancel := context.WithCancel(context.Background())
+						cancelFn[p.ID] = cancel
+						allTypes[p.Type].Pub(w, ctx, p.ID)
 					case p.Dead:
 						ctx, cancel := context.WithCancel(context.Background())
 						cancel()
@@ -134,7 +172,7 @@ func (sc *C04Scenario) Execute(t *testing.T) *core.Outcome {
 			var e []int
 			for _, l := range sc.Pubs {
 				for _, p := range l {
-					if p.Type == r.Type && !p.Dead && filterAccepts(r.Opts.Filter, p.ID) {
+					if p.Type == r.Type && !p.Dead && !p.Mid && filterAccepts(r.Opts.Filter, p.ID) {
 						e = append(e, p.ID)
 					}
 				}
@@ -144,7 +182,7 @@ func (sc *C04Scenario) Execute(t *testing.T) *core.Outcome {
 		dead := 0
 		for _, l := range sc.Pubs {
 			for _, p := range l {
-				if p.Dead {
+				if p.Dead || p.Mid {
 					dead++
 				}
 			}
@@ -185,13 +223,17 @@ func (sc *C04Scenario) Execute(t *testing.T) *core.Outcome {
 				}
 			}
 		}
+		extra := 0
+		if sc.Canceller {
+			extra = 1
+		}
 		seenT := map[int]bool{}
 		for _, r := range sc.Regs {
 			if seenT[r.Type] {
 				continue
 			}
 			seenT[r.Type] = true
-			if c := allTypes[r.Type].Count(w); c != expectCount[r.Type] {
+			if c := allTypes[r.Type].Count(w) - extra; c != expectCount[r.Type] {
 				out.V("once-count-after-quiescence", "HandlerCount(E%02d)=%d after the concurrent phase, expected %d (ordinary handlers + once handlers that had no eligible publish; dead publishes in run: %d)", r.Type, c, expectCount[r.Type], dead)
 			}
 		}
@@ -236,10 +278,10 @@ func (sc *C04Scenario) Execute(t *testing.T) *core.Outcome {
 				continue
 			}
 			seenT[r.Type] = true
-			if c := allTypes[r.Type].Count(w); c != expectCount[r.Type] {
+			if c := allTypes[r.Type].Count(w) - extra; c != expectCount[r.Type] {
 				out.V("once-count-final", "HandlerCount(E%02d)=%d at the end, expected %d", r.Type, c, expectCount[r.Type])
 			}
-			if h := allTypes[r.Type].Has(w); h != (expectCount[r.Type] > 0) {
+			if h := allTypes[r.Type].Has(w); h != (expectCount[r.Type]+extra > 0) {
 				out.V("once-count-final", "HasHandlers(E%02d)=%v at the end, expected count %d", r.Type, h, expectCount[r.Type])
 			}
 		}
